@@ -763,7 +763,9 @@ pub fn judge_damaged(env: &Env, prop: &str, sub: &str, mode: &str, res: &Res<Val
             outcome = "ok";
             match mode {
                 "c07" => {
-                    if !env.subj.same(v, &env.value) {
+                    if !env.subj.same(v, &env.value) && env.subj.prefix_is_legitimate(v, &env.value) {
+                        probes.push("unframed_pipe_cut_reads_as_prefix");
+                    } else if !env.subj.same(v, &env.value) {
                         violation = viol(
                             &o("accepted-different"),
                             format!("a strict prefix ({} of {} bytes) loaded as a DIFFERENT value: {}", image_len, env.ref_bytes.len(), env.subj.debug(v)),
